@@ -32,6 +32,29 @@ def ncells(shape):
     return {"scalar": 1, "g2": 2, "g22": 4}[shape]
 
 
+TINY, OFFSET = 2.0 ** -30, 2.0 ** 17
+
+
+def _magnify(case, rng):
+    """magnitude families (exact dyadic payloads, so the model's rationals stay exact): very small values (k * 2^-30, e.g.
+    conductivities in m/s) and small changes on a large level (2^17 + k / 8, e.g. a pressure in Pa) — differences far below
+    / relative changes near the default tolerances of `np.isclose` / `np.allclose`"""
+    r = rng.random()
+    mag = "tiny" if r < 0.1 else "offset" if r < 0.2 else None
+    if mag is None:
+        return case
+    for ev in case["events"]:
+        if ev[0] == "push":
+            ev[2] = [(v * TINY if mag == "tiny" else OFFSET + v / 8.0) for v in ev[2]]
+    case["mag"] = mag
+    return case
+
+
+def _unit(case):
+    """the magnitude answers are compared at"""
+    return TINY if case.get("mag") == "tiny" else 1.0
+
+
 def gen_case(rng, max_events=36):
     mode = rng.choice(["avg", "sum", "sum", "sumabs"])
     step = None if rng.random() < 0.4 else [rng.randrange(0, 9), 8]
@@ -84,8 +107,8 @@ def gen_case(rng, max_events=36):
             continue
         events.append(["pull", cand])
         prev = cand
-    return {"mode": mode, "step": step, "init_us": init_us, "units": rng.choice(UNITS), "shape": shape,
-            "events": events}
+    return _magnify({"mode": mode, "step": step, "init_us": init_us, "units": rng.choice(UNITS), "shape": shape,
+                     "events": events}, rng)
 
 
 def make_adapter(case, no_evict=False):
@@ -145,7 +168,10 @@ def run_impl(case, no_evict=False, events=None):
 
 
 def model_request(case):
-    evs = [[e[0], e[1], [[v, 1] for v in e[2]]] if e[0] == "push" else e for e in case["events"]]
+    def rat(v):
+        q = F(v)  # exact also for the dyadic float payloads of the magnitude families
+        return [q.numerator, q.denominator]
+    evs = [[e[0], e[1], [rat(v) for v in e[2]]] if e[0] == "push" else e for e in case["events"]]
     req = {"op": "c12", "mode": "avg" if case["mode"] == "avg" else "sum", "per_time": case["mode"] == "sum",
            "init_us": case["init_us"], "events": evs}
     if case["step"] is not None:
@@ -153,17 +179,17 @@ def model_request(case):
     return req
 
 
-def same_answer(a, m):
+def same_answer(a, m, u=1.0):
     if a is None or m is None:
         return a is None and m is None
     if "err" in a or "err" in m:
         return a.get("err") == m.get("err")
-    return len(a["ok"]) == len(m["ok"]) and all(close(x, q[0] / q[1]) for x, q in zip(a["ok"], m["ok"]))
+    return len(a["ok"]) == len(m["ok"]) and all(close(x / u, q[0] / q[1] / u) for x, q in zip(a["ok"], m["ok"]))
 
 
 def compare(case, impl, model):
     for i, _ev in enumerate(case["events"]):
-        if not same_answer(impl["answers"][i], model["impl"][i]):
+        if not same_answer(impl["answers"][i], model["impl"][i], _unit(case)):
             return {"event": i, "impl": impl["answers"][i], "model": model["impl"][i]}
         if impl["lens"][i] != model["lens"][i]:
             return {"event": i, "impl_len": impl["lens"][i], "model_len": model["lens"][i]}
@@ -246,13 +272,13 @@ def oracle(case, impl):
                     {"event": i, "source_units": case["units"], "mode": case["mode"], "got_units": a["units"]})
         for c in range(nc):
             exp, contrib = expected(case, hist, c, p0, p1)
-            if not close(a["ok"][c], float(exp)):
+            if not close(a["ok"][c] / _unit(case), float(exp) / _unit(case)):
                 return ("the adapter must return the exact integral of the interpolant over [p0, p1] "
                         "(per time: x seconds; absolute: weighted sum; average: divided by p1 - p0)",
                         {"event": i, "cell": c, "p0": p0, "p1": p1, "got": a["ok"][c], "expected": str(exp)})
             if case["mode"] == "avg":
                 lo, hi = float(min(contrib)), float(max(contrib))
-                tol = 1e-9 * max(1.0, abs(lo), abs(hi))
+                tol = 1e-9 * max(_unit(case), abs(lo), abs(hi))
                 if not (lo - tol <= a["ok"][c] <= hi + tol):
                     return ("every average lies within the range of the values that contribute to it",
                             {"event": i, "cell": c, "p0": p0, "p1": p1, "got": a["ok"][c], "range": [lo, hi]})
@@ -261,7 +287,7 @@ def oracle(case, impl):
     for i, ev in enumerate(case["events"]):
         if ev[0] == "pull":
             x, y = impl["answers"][i], ref["answers"][i]
-            same = (x == y) or ("ok" in x and "ok" in y and all(close(p, q) for p, q in zip(x["ok"], y["ok"])))
+            same = (x == y) or ("ok" in x and "ok" in y and all(close(p / _unit(case), q / _unit(case)) for p, q in zip(x["ok"], y["ok"])))
             if not same:
                 return ("discarding old buffer entries must not change a later result",
                         {"event": i, "evicting": x, "keeping_everything": y})
